@@ -239,6 +239,23 @@ func checkValueC18(c *h.Ctx, v *dtVal) {
 			c.Held("json.roundtrip")
 		}
 	}
+	// ... and the bytes MarshalJSON returns are the caller's: they still read
+	// the same after the next value (of any of the five types) was marshalled
+	if mv, isM := v.v.(json.Marshaler); isM {
+		if c18Held != nil && string(c18Held) != c18HeldWant {
+			c.Violate("json.roundtrip", feat("kind", "bytes-changed-later"), fmt.Sprintf("the bytes an earlier MarshalJSON returned (%s) read %q after other values were marshalled", c18HeldWant, c18Held), v.caseOf())
+		} else if c18Held != nil {
+			c.Held("json.roundtrip")
+		}
+		if b, err := mv.MarshalJSON(); err == nil {
+			c18Held, c18HeldWant = b, string(b)
+			if om, ok := types.ParseTime(ctx, "1999-12-31T01:02:03.5+05:30", -1); ok {
+				if _, err := om.(json.Marshaler).MarshalJSON(); err == nil && string(b) != c18HeldWant {
+					c.Violate("json.roundtrip", feat("kind", "bytes-changed-later"), fmt.Sprintf("the bytes MarshalJSON returned (%s) read %q after another value was marshalled", c18HeldWant, b), v.caseOf())
+				}
+			}
+		}
+	}
 	// .string() inside a path prints the same text.
 	for _, m := range []string{"datetime", dtMethodOf[v.typ]} {
 		p := c18Path("$." + m + "().string()")
@@ -273,6 +290,12 @@ func checkValueC18(c *h.Ctx, v *dtVal) {
 		c.Sample("value:"+v.typ, exp)
 	}
 }
+
+// c18Held: what the previous value's MarshalJSON returned, and what it read then.
+var (
+	c18Held     []byte
+	c18HeldWant string
+)
 
 func replayC18(c *h.Ctx, cs h.Case) {
 	switch cs.Kind {
